@@ -370,6 +370,8 @@ package relmod
 //@   ensures [endpoint-rows-kept] forall(i, 0, old(len(s.Ep)), s.Ep[i] == old(s.Ep[i]))
 //@   ensures [one-param-row-per-param] old(ep.Name) != "..." && !old(ep.IsPubsub) && result == nil ==> len(s.Param) == old(len(s.Param)) + old(len(ep.Param)) + ite(old(ep.RestParams) != nil, old(len(ep.RestParams.UrlParam)) + old(len(ep.RestParams.QueryParam)), 0)
 //@   assert @call:arrai/relmod.normalizeParam [own-param] arg0 == s && arg1 == app && arg2 == ep && arg3 == p.Name && arg4 == p.Type && arg5 == pi
+// a subscription endpoint refers to its event by the text that follows the arrow of its name, whatever the publisher's name looks like
+//@   assert @setfield:F.relmod.EndpointEvent.EventName [event-name-is-what-follows-the-arrow] contains(ep.Name, " -> ") ==> hasPrefix(substr(ep.Name, indexOf(ep.Name, " -> ") + 4, len(ep.Name) - indexOf(ep.Name, " -> ") - 4), stored)
 //@   assert @call:arrai/relmod.normalizeStatement [top-level-statement-path] arg1 == s && arg2 == app && arg3 == ep && arg4 == stmt && fresh(base(arg5)) && len(arg5) == 1 && cap(arg5) == 1 && arg5[0] == i
 //@   ghostclear @iter:3 visited
 //@   ghostset @call:arrai/relmod.normalizeStatement visited
